@@ -215,8 +215,9 @@ pub fn make_doc(profile: Profile, id: &str, ver: u64) -> Document {
     return Document { fields };
   }
   if is_big(ver) {
-    // one long document in five is very long (beyond 64 KiB of stored text)
-    let extra = (300 + (nextr() % 6) as usize * 400) * if ver % 5 == 0 { 6 } else { 1 };
+    // one long document in five is very long (20-150 KiB of stored text, mostly
+    // beyond 64 KiB)
+    let extra = (300 + (nextr() % 6) as usize * 400) * if ver % 5 == 0 { 12 } else { 1 };
     let span = 50 + (nextr() % 4000);
     for i in 0..extra {
       words.push(format!("w{}", (nextr() % span) + (i as u64 % 7)));
@@ -642,6 +643,41 @@ pub fn gen_ops(rng: &mut Rng, cfg: &Cfg, p: &GenParams) -> Vec<Op> {
           ops.push(Op::Commit { h });
         }
       }
+      continue;
+    }
+    if p.overlap && live.len() >= 2 && rng.chance(1, 15) {
+      // two handles touch the same id one after the other (the second one's view
+      // is stale), then a fresh handle works on its neighbour
+      let b = live[rng.usize(live.len())];
+      let a = *live.iter().find(|x| **x != b).unwrap();
+      let x = ids[0].clone();
+      let y = ids[1 % ids.len()].clone();
+      ops.push(Op::Delete { h: b, id: x.clone() });
+      ops.push(Op::Commit { h: b });
+      if rng.chance(1, 2) {
+        ops.push(Op::Delete { h: a, id: x.clone() });
+      } else {
+        ops.push(Op::Add { h: a, id: x.clone(), ver: next_ver });
+        next_ver += 1;
+      }
+      ops.push(Op::Commit { h: a });
+      if rng.chance(1, 2) {
+        live.clear();
+        readers.clear();
+        ops.push(Op::Reopen);
+        let n = next_h;
+        next_h += 1;
+        live.push(n);
+        ops.push(Op::NewWriter { h: n });
+      }
+      let c = *rng.pick(&live);
+      if rng.chance(1, 2) {
+        ops.push(Op::Add { h: c, id: y, ver: next_ver });
+        next_ver += 1;
+      } else {
+        ops.push(Op::Delete { h: c, id: y });
+      }
+      ops.push(Op::Commit { h: c });
       continue;
     }
     let mut w = p.weights;
